@@ -5,7 +5,8 @@
 #include <unistd.h>
 #include <sys/stat.h>
 
-static int g_mode;      /* 0 phrase, 1 password, 2 buffer */
+static int g_mode;      /* 0 phrase, 1 password, 2 buffer (C14: safety); 3 relation between the two decoders (C09); 4 decoders vs reference model (C08) */
+static bool g_have_model;
 static uint64_t g_execs, g_status[8];
 
 static void die(const char* key, const char* detail) {
@@ -23,8 +24,8 @@ int LLVMFuzzerInitialize(int* argc, char*** argv) {
     pv_inject_default();
     polyseed_enable_features(3);
     const char* corpus = getenv("PV_FUZZ_CORPUS");
+    if (pv.golden_dir && (corpus || g_mode >= 3)) { pv_model_init(); pv_model_bind_library(); g_have_model = true; }
     if (corpus && pv.golden_dir) {       /* seed the corpus with grammar output */
-        pv_model_init(); pv_model_bind_library();
         pv_rng r; pv_rng_seed(&r, pv.seed, 0xf022, (uint64_t)g_mode);
         for (int i = 0; i < 400; ++i) {
             char path[4096]; snprintf(path, sizeof path, "%s/seed-%d-%03d", corpus, g_mode, i);
@@ -69,7 +70,47 @@ int LLVMFuzzerTestOneInput(const uint8_t* data, size_t size) {
         size_t n = size - 3;
         char* str = malloc(n + 1); memcpy(str, data + 3, n); str[n] = 0;      /* embedded NULs simply end the string earlier */
         char* copy = malloc(n + 1); memcpy(copy, str, n + 1);
-        if (g_mode == 0) {
+        if (g_mode == 3) {
+            /* C09: the relation between the automatic decoder and the explicit decoders on the same string (needs no model) */
+            int est[32]; uint8_t eimg[32][32]; int nR = 0, which = -1, n_nw = 0, nlang = nl < 32 ? nl : 32;
+            for (int l = 0; l < nlang; ++l) {
+                polyseed_data* s = NULL; est[l] = polyseed_decode_explicit(str, (polyseed_coin)coin, polyseed_get_lang(l), &s);
+                if (est[l] < 0 || est[l] > 6 || est[l] == POLYSEED_ERR_FORMAT) die("C09/fuzz/explicit-status-out-of-set", "");
+                if (est[l] == POLYSEED_OK) { polyseed_store(s, eimg[l]); polyseed_free(s); }
+                if (est[l] == POLYSEED_ERR_NUM_WORDS) ++n_nw;
+                else if (est[l] != POLYSEED_ERR_LANG) { ++nR; which = l; }
+            }
+            if (n_nw != 0 && n_nw != nlang) die("C09/fuzz/word-count-depends-on-language", "");
+            polyseed_data* a = NULL; const polyseed_lang* lo = NULL; uint8_t img[32], img2[32];
+            int st = polyseed_decode(str, (polyseed_coin)coin, &lo, &a);
+            g_status[st & 7]++;
+            if (n_nw == nlang) { if (st != POLYSEED_ERR_NUM_WORDS) die("C09/fuzz/relation/num-words", ""); }
+            else if (nR == 0) { if (st != POLYSEED_ERR_LANG) die("C09/fuzz/relation/no-language", ""); }
+            else if (nR >= 2) { if (st != POLYSEED_ERR_MULT_LANG) die("C09/fuzz/relation/guessed-among-several-languages", ""); }
+            else {
+                if (st != est[which]) die("C09/fuzz/relation/differs-from-explicit", "");
+                if (st == POLYSEED_OK) { polyseed_store(a, img); if (lo != polyseed_get_lang(which)) die("C09/fuzz/relation/wrong-lang-out", ""); if (memcmp(img, eimg[which], 32)) die("C09/fuzz/relation/different-seed", ""); }
+            }
+            polyseed_data* a2 = NULL; int st2 = polyseed_decode(str, (polyseed_coin)coin, NULL, &a2);
+            if (st2 != st) die("C09/fuzz/lang-out-null/status-differs", "");
+            if (st == POLYSEED_OK) { polyseed_store(a, img); polyseed_store(a2, img2); if (memcmp(img, img2, 32)) die("C09/fuzz/lang-out-null/seed-differs", ""); polyseed_free(a2); polyseed_free(a); }
+        } else if (g_mode == 4 && g_have_model) {
+            /* C08: both decoders against the reference pipeline (NFKD -> split -> model matcher -> coin -> checksum -> features);
+             * only definite model predictions count */
+            int li = -1; for (int l = 0; l < pv_nlangs; ++l) if (pv_langs[l].lib == L) li = l;
+            uint8_t img[32], mimg[32];
+            if (li >= 0) {
+                pv_mdecode md; pv_m_decode(str, coin, &pv_langs[li], 3, &md);
+                polyseed_data* s = NULL; int st = polyseed_decode_explicit(str, (polyseed_coin)coin, L, &s);
+                g_status[st & 7]++;
+                if (md.status >= 0 && st != md.status) { char d[160]; snprintf(d, sizeof d, "%s: library %s, model %s", pv_langs[li].name_en, pv_status_name(st), pv_status_name(md.status)); die("C08/fuzz/explicit-differs-from-model", d); }
+                if (st == POLYSEED_OK) { polyseed_store(s, img); pv_m_image(&md.seed, mimg); if (md.status == POLYSEED_OK && memcmp(img, mimg, 32)) die("C08/fuzz/explicit-decodes-to-other-seed", pv_langs[li].name_en); polyseed_free(s); }
+            }
+            pv_mdecode ma; pv_m_decode(str, coin, NULL, 3, &ma);
+            polyseed_data* a = NULL; const polyseed_lang* lo = NULL; int sa = polyseed_decode(str, (polyseed_coin)coin, &lo, &a);
+            if (ma.status >= 0 && sa != ma.status) { char d[160]; snprintf(d, sizeof d, "library %s, model %s", pv_status_name(sa), pv_status_name(ma.status)); die("C08/fuzz/auto-differs-from-model", d); }
+            if (sa == POLYSEED_OK) { polyseed_store(a, img); pv_m_image(&ma.seed, mimg); if (ma.status == POLYSEED_OK && (memcmp(img, mimg, 32) || (ma.lang >= 0 && lo != pv_langs[ma.lang].lib))) die("C08/fuzz/auto-decodes-to-other-seed-or-language", ""); polyseed_free(a); }
+        } else if (g_mode == 0) {
             polyseed_data* s = NULL; const polyseed_lang* lo = NULL;
             int st = polyseed_decode(str, (polyseed_coin)coin, &lo, &s);
             if (st < 0 || st > 7 || st == POLYSEED_ERR_FORMAT) die("C14/fuzz/status-outside-documented-set/decode", "");
